@@ -180,7 +180,11 @@ func checkLineDiscipline(s *gen.MsgSpec, out []byte, viol func(key, what string,
 					// almost the maximum length): not a single token, so the statement counts it - under a key of its own
 					viol("header-line-too-long:quoted-boundary-with-blank", fmt.Sprintf("header line of %d characters: a quoted boundary parameter that contains a blank: %q", len(l), ev.Trunc(l, 200)), nil)
 				} else if strings.ContainsAny(rest, " \t") {
-					viol("header-line-too-long:"+lineKey(e.Depth, e, f.Name), fmt.Sprintf("header line of %d characters that contains blanks (could have been folded): %q", len(l), ev.Trunc(l, 200)), nil)
+					lk := lineKey(e.Depth, e, f.Name)
+					if lk == "top-content:Content-Type" && strings.HasPrefix(strings.ToLower(l), "content-type: multipart/signed;") {
+						lk += ":multipart-signed-first-line" // the known S/MIME finding, kept apart from every other Content-Type line
+					}
+					viol("header-line-too-long:"+lk, fmt.Sprintf("header line of %d characters that contains blanks (could have been folded): %q", len(l), ev.Trunc(l, 200)), nil)
 				} else {
 					count("long_single_token_lines", 1)
 				}
